@@ -11,11 +11,11 @@ import subprocess
 import sys
 
 
-def call(modname, desc, tier, timeout=600):
+def call(modname, desc, tier, timeout=600, env=None):
     from .runner import VERIF
     from .result import R
 
-    p = subprocess.run([sys.executable, "-m", "vf.core.fresh", modname, repr(desc), tier], cwd=VERIF, env=dict(os.environ), capture_output=True, timeout=timeout)
+    p = subprocess.run([sys.executable, "-m", "vf.core.fresh", modname, repr(desc), tier], cwd=VERIF, env=dict(os.environ, **(env or {})), capture_output=True, timeout=timeout)
     if p.returncode != 0:
         r = R()
         r.notes.append("MACHINERY-ERROR fresh-process shard failed:\n" + p.stderr.decode("utf-8", "replace")[-3000:])
